@@ -1,7 +1,7 @@
 """C37 - DataFrame reductions and aggregations equal pandas for every partitioning and split_every.
 
 spec -> code: TLC enumerates (specs/frame/FrameReductionsMC.tla) every (frame fill, operation, parameters,
-target, axis) of the bounded space together with the result the TLA+ reference semantics
+target, axis in {0, 1, None}) of the bounded space together with the result the TLA+ reference semantics
 (specs/frame/FrameReductions.tla, exact rationals from specs/common/Rational.tla) demands, and ALL row
 partitionings of the fill's row count into <= MaxParts consecutive partitions (empty partitions allowed); the
 design check proves on every one of those partitionings that the reference decomposes the way a
@@ -38,7 +38,7 @@ META = {
                   "TLC computes sum prod min max count any all (skipna, min_count), mean var std sem (ddof), idxmin idxmax, "
                   "nunique, value_counts (dropna, normalize, sort/ascending), mode, nlargest nsmallest, cov corr, the exact rows of "
                   "describe (count mean std min max) and len for the frame "
-                  "(axis 0 and 1) and its first column; dask is replayed on all row partitionings with <= 4 parts (empty "
+                  "(axis 0, 1 and - where pandas accepts it - None) and its first column; dask is replayed on all row partitionings with <= 4 parts (empty "
                   "partitions included; quick: a seeded sample of (case, partitioning) pairs) x split_every in {2,3,False,None}, "
                   "built with from_delayed or from_pandas. Random larger frames are decided by TLC from recorded calls.",
     "level_note": "Trusted: TLC, the TLA+ reference (cross-checked against pandas on every case; a disagreement is a machinery "
@@ -90,7 +90,7 @@ def apply_op(x, case, variant, is_dask):
         if op != "count":
             kw["skipna"] = case["sk"]
         if frame:
-            kw["axis"] = case["ax"]
+            kw["axis"] = None if case["ax"] == 2 else case["ax"]
         if case["scol"]:
             kw["numeric_only"] = True
         if op in ("sum", "prod"):
@@ -347,6 +347,8 @@ def run_dask(case, layout, variant):
                 except Exception as ex:  # noqa: BLE001 - an exception of the operation is an observation
                     if is_shim_error(ex) or isinstance(ex, CallTimeout):
                         raise
+                    if isinstance(ex, ValueError) and "axis=None not supported" in str(ex):
+                        raise NotImplementedError("documented refusal: " + str(ex)[:40])       # var(axis=None): explicit, like NotImplementedError
                     return {"raised": type(ex).__name__, "msg": str(ex)[:160], "k": "", "ix": [], "v": [], "close": True, "ord": [],
                             "layout": actual}
         obs = project(case, y)
@@ -398,6 +400,15 @@ def classify(case, layout, clause, variant):
     ax1 = case["tgt"] == "frame" and case["ax"] == 1
     site = {"idxmin": "idx", "idxmax": "idx", "min": "minmax", "max": "minmax", "sum": "sumprod", "prod": "sumprod",
             "var": "var", "std": "var", "sem": "var", "nlargest": "top", "nsmallest": "top"}.get(op, op)
+    if case["tgt"] == "frame" and case["ax"] == 2:
+        if op == "mean" and not case["sk"] and clause == "Content":
+            return "axisNone:mean:skipna=False:ignored"
+        if op in ("sum", "prod") and case["p"] and clause == "UnexpectedRaise":
+            return "axisNone:sum-prod:min_count:raises"
+        if op in ("std", "sem") and clause == "Kind":
+            return "axisNone:std-sem:treated-as-axis0"
+        if op in ("any", "all") and clause == "Kind":
+            return "axisNone:any-all:treated-as-axis0"
     if fam == "idx" and not ax1 and clause == "UnexpectedRaise" and case["sk"] and "allna-partition" in feats:
         return "idx:axis0:allna-partition:raises"
     if fam == "rat" and site == "var" and not ax1 and clause == "Content" and case["p"] >= 2:
@@ -406,7 +417,7 @@ def classify(case, layout, clause, variant):
             return "var:axis0:count==ddof"
     if fam == "fold" and site == "minmax" and not ax1 and not case["sk"] and clause == "Content" and "empty-partition" in feats:
         return "minmax:axis0:skipna=False:empty-partition"
-    parts = [fam, site, "axis1" if ax1 else case["tgt"], clause]
+    parts = [fam, site, "axis1" if ax1 else "axisNone" if (case["tgt"] == "frame" and case["ax"] == 2) else case["tgt"], clause]
     if fam in ("fold", "rat", "idx"):
         parts.append("skipna=%s" % case["sk"])
     elif fam in ("nuniq", "vc", "mode"):
@@ -450,6 +461,14 @@ def gen_fill(rng, n, ncols, na_p=0.25, special=None, scol=False):
         cells[cols[-1]] = [NA] * n
     if special == "nona":
         cells = {c: [rng.choice([0, 1, 2]) for _ in range(n)] for c in cols}
+    if special == "uneven" and n >= 2:                   # columns with different numbers of valid cells: first some NA, last all-NA
+        for c in cols:                                   # (>= 3 columns), one NA-free
+            cells[c] = [rng.choice([0, 1, 2]) for _ in range(n)]
+        k = rng.randint(1, n - 1)
+        for i in rng.sample(range(n), k):
+            cells[cols[0]][i] = NA
+        if ncols >= 3:
+            cells[cols[-1]] = [NA] * n
     if special == "nablock" and n >= 2:                  # a run of NA at the start of the first column
         k = rng.randint(1, n - 1)
         cells[cols[0]][:k] = [NA] * k
@@ -468,7 +487,8 @@ def make_fills(ctx):
     if ctx.quick:
         plan += [(0, 2, None, False), (1, 1, None, False), (2, 2, None, False), (3, 1, None, False), (3, 3, "nablock", False),
                  (4, 2, None, False), (4, 3, "allna", False), (5, 1, "nablock", False), (5, 2, "nona", False),
-                 (5, 3, None, True), (6, 1, None, False), (6, 2, "nablock", False), (6, 3, None, False), (4, 2, None, True)]
+                 (5, 3, None, True), (6, 1, None, False), (6, 2, "nablock", False), (6, 3, None, False), (4, 2, None, True),
+                 (4, 3, "uneven", False), (5, 2, "uneven", False), (6, 3, "uneven", False)]
     else:
         for n in range(0, 7):
             for nc in (1, 2, 3):
@@ -478,6 +498,7 @@ def make_fills(ctx):
                 if n >= 3:
                     plan.append((n, nc, rng.choice(["allna", "nona"]), rng.random() < 0.5))
         plan += [(6, 3, None, True), (5, 2, None, True), (6, 2, "nablock", False), (6, 1, None, False)]
+        plan += [(n, nc, "uneven", False) for n in (2, 3, 4, 5, 6) for nc in (2, 3)]
     fills, seen = [], set()
     for n, nc, special, scol in plan:
         f = gen_fill(rng, n, nc, special=special, scol=scol)
@@ -488,7 +509,7 @@ def make_fills(ctx):
     return fills
 
 
-INVARIANTS = ["ShapeOK", "CovSane", "CovDecomposes", "DescribeAgrees", "FoldDecomposes", "MeanDecomposes", "VarDecomposes", "IdxDecomposes", "IdxRaisesIff", "VCDecomposes",
+INVARIANTS = ["ShapeOK", "GrandFold", "CovSane", "CovDecomposes", "DescribeAgrees", "FoldDecomposes", "MeanDecomposes", "VarDecomposes", "IdxDecomposes", "IdxRaisesIff", "VCDecomposes",
               "VCNormalized", "TopDecomposes", "CountPlusNA", "MeanWithin", "VarNonNeg", "SemIsVarOverN", "RowwiseOfOneColumn"]
 
 
@@ -570,7 +591,7 @@ def random_case(rng):
     case = dict(f, fam=fam, op=fam, tgt="frame", ax=0, sk=True, fl=False, p=0)
     if fam == "fold":
         op = rng.choice(["sum", "prod", "min", "max", "count"] + ([] if scol else ["any", "all"]))
-        tgt, ax = rng.choice(tgts)
+        tgt, ax = rng.choice(tgts + ([("frame", 2)] if op != "count" else []))
         case.update(op=op, tgt=tgt, ax=ax, sk=(op == "count" or rng.random() < 0.6), p=rng.choice([0, 0, 1, 3]) if op in ("sum", "prod") else 0)
         if op == "prod":                # keep products small
             for r in case["rows"]:
@@ -579,7 +600,7 @@ def random_case(rng):
                         r[c] = 1
     elif fam == "rat":
         op = rng.choice(["mean", "var", "std", "sem"])
-        tgt, ax = rng.choice(tgts)
+        tgt, ax = rng.choice(tgts + [("frame", 2)])
         case.update(op=op, tgt=tgt, ax=ax, sk=rng.random() < 0.7, p=0 if op == "mean" else rng.choice([0, 1, 1, 2]))
     elif fam == "idx":
         tgt, ax = rng.choice(tgts)
@@ -662,7 +683,7 @@ def validate_records(ctx, recs, on_violation=None):
 
 
 # ----------------------------------------------------------------------------- entry points
-def pair_items(ctx, cases, layouts, cap, thorough):
+def pair_items(ctx, cases, layouts, cap, thorough, per_none=2):
     """(case, layout) pairs - all of them or a seeded sample of `cap` - with their variants."""
     counts = [len(layouts[len(c["c"]["rows"])]) for c in cases]
     total = sum(counts)
@@ -676,6 +697,12 @@ def pair_items(ctx, cases, layouts, cap, thorough):
         c = cases[ci]
         lay = layouts[len(c["c"]["rows"])][p - base]
         items.append((c["c"], c["e"], lay, variants_of(c["c"], ctx.rng, thorough and not sampled, k=1 if sampled else 2)))
+    if sampled:         # stratum: every axis=None case is replayed on `per_none` partitionings of its own, whatever the sample holds
+        for c in cases:
+            if c["c"]["tgt"] == "frame" and c["c"]["ax"] == 2:
+                lays = layouts[len(c["c"]["rows"])]
+                for lay in ctx.rng.sample(lays, min(per_none, len(lays))):
+                    items.append((c["c"], c["e"], lay, variants_of(c["c"], ctx.rng, False, k=1)))
     return items, total, sampled
 
 
@@ -685,7 +712,7 @@ def run(ctx):
     fills = make_fills(ctx)
     cases, layouts, _ = enumerate_cases(ctx, fills, designparts=ctx.pick(3, 4), ddofs=ctx.pick("{0, 1}", "{0, 1, 2}"),
                                         mincounts=ctx.pick("{0, 2}", "{0, 1, 3}"))
-    items, total_pairs, sampled = pair_items(ctx, cases, layouts, ctx.pick(4200, 50000), thorough)
+    items, total_pairs, sampled = pair_items(ctx, cases, layouts, ctx.pick(3600, 50000), thorough, per_none=ctx.pick(2, 4))
     replay_cases(ctx, items)
     for fam in ("fold", "rat", "idx", "vc", "top"):
         for it in items:
@@ -743,7 +770,8 @@ def selftest(ctx):
     import dask.dataframe.dask_expr._reductions as red
     import dask.dataframe.methods as methods
     rng = ctx.rng
-    fills = [gen_fill(rng, 5, 2, special="nona"), gen_fill(rng, 6, 1, na_p=0.2), gen_fill(rng, 4, 3, na_p=0.2)]
+    fills = [gen_fill(rng, 5, 2, special="nona"), gen_fill(rng, 6, 1, na_p=0.2), gen_fill(rng, 4, 3, na_p=0.2),
+             gen_fill(rng, 5, 3, special="uneven")]
     for f in fills:                       # distinct values so that a wrong partition / branch shows
         for i, r in enumerate(f["rows"]):
             r["idx"] = i
@@ -764,6 +792,9 @@ def selftest(ctx):
         ("TreeReduce._layer: batches built with toolz.partition (drops the incomplete last batch) instead of partition_all",
          [red.TreeReduce], "_layer", mutate(vars(red.TreeReduce)["_layer"], "toolz.partition_all(", "toolz.partition("),
          lambda c: c["fam"] in ("fold", "rat", "top") and c["ax"] == 0 and c["p"] in (0, 1, 7)),
+        ("Mean._lower: mean(axis=None) = unweighted mean of the column means instead of the grand mean (sum of sums / sum of counts)",
+         [red.Mean], "_lower", mutate(vars(red.Mean)["_lower"], "return s.sum() / c.sum()", "return MeanAggregate(s, c).mean()"),
+         lambda c: c["fam"] == "rat" and c["op"] == "mean" and c["tgt"] == "frame" and c["ax"] == 2 and c["sk"]),
         ("idxmaxmin_chunk: the partition's candidate value is the opposite extreme (wrong operand)",
          [red.IdxMin], "reduction_chunk", mutate(dcore.idxmaxmin_chunk, '"max" if fn == "idxmax" else "min"', '"min" if fn == "idxmax" else "max"'),
          lambda c: c["fam"] == "idx" and c["ax"] == 0 and c["sk"]),
